@@ -11,7 +11,7 @@ from impl import trees, grammar, grammaroutput, grammarinput, grammaranalysis, t
 from props.c07 import REORD
 
 ID = "C09"
-MODULE = ['TT.Props.C09', 'TT.Props.C09Rcg', 'TT.Props.C09More', 'TT.Props.C09Full', 'TT.Props.C09Treebank', 'TT.Props.C09Lopar', 'TT.Props.C09Lopar2', 'TT.Props.C18Src']
+MODULE = ['TT.Props.C09', 'TT.Props.C09Rcg', 'TT.Props.C09More', 'TT.Props.C09Full', 'TT.Props.C09Treebank', 'TT.Props.C09Lopar', 'TT.Props.C09Lopar2', 'TT.Props.C18Src', 'TT.Props.C03Cmd']
 RULE = ("grammars extracted from random treebanks (any fan-out, shared linearization sequences, counts > 1), raw and "
         "binarized in every mode; lexicons with ambiguous, capitalised and non-ASCII words; lex_in_grammar on/off; "
         "PMCFG and LoPar files decoded by independent decoders, RCG files re-read with the tool's own reader; the "
